@@ -34,6 +34,8 @@ type Prog struct {
 	Files []string // compiled go files of the root package
 
 	Alias map[string]string // historical unexported name -> the name in this tree (names.go)
+
+	Touched map[*ssa.Function]bool // functions the rules looked up by name (anchors)
 }
 
 func loadEnv() []string {
@@ -211,7 +213,19 @@ func (p *Prog) InstrPos(in ssa.Instruction) string {
 
 // Func returns the package-level function with the given name, or nil.
 func (p *Prog) Func(name string) *ssa.Function {
-	return p.Pkg.Func(p.alias(name))
+	f := p.Pkg.Func(p.alias(name))
+	p.touch(f)
+	return f
+}
+
+func (p *Prog) touch(f *ssa.Function) {
+	if f == nil {
+		return
+	}
+	if p.Touched == nil {
+		p.Touched = map[*ssa.Function]bool{}
+	}
+	p.Touched[f] = true
 }
 
 // Method returns method `name` on named type `typ` (pointer or value receiver).
@@ -232,6 +246,7 @@ func (p *Prog) Method(typ, name string) *ssa.Function {
 			if sel.Obj().Name() == name {
 				if f := p.SSA.MethodValue(sel); f != nil {
 					// unwrap promoted-method wrappers to the declared method when possible
+					p.touch(f)
 					return f
 				}
 			}
